@@ -87,6 +87,8 @@ pub struct World {
     held: Vec<Option<Arc<BatchUdpSocket>>>,
     gens: Vec<u64>,
     last_err: bool,
+    prev_links: Vec<String>,
+    prev_glob: String,
     pub steps: Vec<String>,
     pub wires: Vec<Vec<Vec<i128>>>, // per step, per link
     pub obs_conn: Vec<Vec<bool>>,    // per step, per link connected (for the scripted receiver)
@@ -132,7 +134,7 @@ impl World {
             _packet_rx: packet_rx, listener, instant_tx, _instant_rx: instant_rx,
             tracker: SequenceTracker::new(), last_sel: None, client: None,
             critical: srtla_core::priority::CriticalWindow::new(), rx, bind_ok, held,
-            gens: vec![0; n], last_err: false, steps: vec![], wires: vec![], obs_conn: vec![],
+            gens: vec![0; n], last_err: false, prev_links: vec![], prev_glob: String::new(), steps: vec![], wires: vec![], obs_conn: vec![],
             hist: Default::default(),
         }
     }
@@ -221,8 +223,22 @@ impl World {
         self.refresh_gens();
         let wire = self.drain_wire();
         let links: Vec<String> = (0..self.n).map(|i| self.link_obs(i)).collect();
-        let wtxt: Vec<String> = wire.iter().map(|w| common::zlist(w.iter().copied())).collect();
-        self.steps.push(format!("SP {} [{}] {} [{}]", op_text, links.join(";"), self.glob_obs(), wtxt.join(";")));
+        if self.prev_links.is_empty() {
+            // observation of a freshly created link (what Run_C08.steps_of starts from)
+            self.prev_links = vec![format!("(LO false (-1) 5000 0 0 0 {} 0 0 0 20000 0 0 false false false false)", self.t0 + 5000); self.n];
+        }
+        let mut delta = vec![];
+        for i in 0..self.n {
+            if links[i] != self.prev_links[i] { delta.push(format!("({i}%nat,{})", links[i])); }
+        }
+        self.prev_links = links;
+        let wtxt: Vec<String> = wire.iter().enumerate().filter(|(_, w)| !w.is_empty())
+            .map(|(i, w)| format!("({i}%nat,{})", common::zlist(w.iter().copied()))).collect();
+        let g = self.glob_obs();
+        if self.prev_glob.is_empty() { self.prev_glob = "(GO (-1) 0 0 false false (-1) 0 false (-1) (-1) false 5000 false)".into(); }
+        let gtxt = if g == self.prev_glob { "None".to_string() } else { format!("(Some {g})") };
+        self.prev_glob = g;
+        self.steps.push(format!("DS {} [{}] {} [{}]", op_text, delta.join(";"), gtxt, wtxt.join(";")));
         self.obs_conn.push((0..self.n).map(|i| self.conns[i].connected).collect());
         self.wires.push(wire);
         self.last_err = false;
@@ -626,7 +642,7 @@ pub fn run(seed: u64, tier: &str, out: &Path, extra: &[(String, String)]) -> std
         let w = rt.block_on(sc_prereg_nak(&mut r));
         push(&mut run, "prereg_nak", w);
     }
-    let (n_rec, n_rand) = if thorough { (160, 2400) } else { (16, 240) };
+    let (n_rec, n_rand) = if thorough { (120, 1500) } else { (12, 150) };
     for k in 0..n_rec {
         let mut r = rng.fork(100 + k);
         let w = rt.block_on(sc_recovery(&mut r, 2 + (k as usize % 3), (k % 4) as u8));
